@@ -9,6 +9,7 @@ import AlphaG.Driver.C08
 import AlphaG.Driver.C10
 import AlphaG.Driver.C13
 import AlphaG.Driver.C13b
+import AlphaG.Driver.C14b
 import AlphaG.Driver.C15
 import AlphaG.Driver.C16
 import AlphaG.Driver.C17
@@ -29,6 +30,7 @@ def main : IO Unit := Driver.run [
   AlphaG.Driver.C10.handle,
   AlphaG.Driver.C13.handle,
   AlphaG.Driver.C13b.handle,
+  AlphaG.Driver.C14b.handle,
   AlphaG.Driver.C15.handle,
   AlphaG.Driver.C16.handle,
   AlphaG.Driver.C17.handle,
